@@ -758,6 +758,17 @@ func dictAndValuesRules(c *Ctx, r *Report) {
 		}
 		r.Check(underReplace, "R01d", name, "clear only under replace", c.Pos(st.Pos()), "to.fields.d = nil dominated by policy == cfgReplaceValue", "the destination dictionary is cleared on a path not restricted to the replace policy")
 		r.Check(afterEmpty, "R01d", name, "empty source replaces nothing", c.Pos(st.Pos()), "clearing dominated by len(source dict) != 0", "the destination dictionary can be cleared although the source dictionary is empty")
+		// source and destination may be the same config (c.Merge(c, ReplaceValues)): the dictionary the
+		// loop runs over must have been read before the destination's dictionary is cleared
+		if def, ok := srcMap.(ssa.Instruction); ok {
+			before := true
+			if def.Block() == st.Block() {
+				before = InstrDominates(def, st)
+			} else if reachableAvoiding(st.Block(), def.Block(), nil) {
+				before = false
+			}
+			r.Check(before, "R01d", name, "source read before clear", c.Pos(st.Pos()), "the source dictionary the loop runs over is read before to.fields.d = nil", "the source dictionary is read after the destination's dictionary was cleared: merging a config into itself under the replace policy loses every named setting")
+		}
 	})
 	if nclear == 0 {
 		r.Bad("R01d", name, "clear only under replace", c.Pos(fn.Pos()), "the replace policy no longer clears the old dictionary")
